@@ -30,12 +30,14 @@ def main():
             if os.path.exists(os.path.join(d, alt)):
                 pf = os.path.join(d, alt)
                 break
+        if not seeds and not os.path.exists("/verif/seeded/%s/confirm.json" % sid):
+            continue  # delivered but not kept (not confirmed, or its behaviour-preserving part is not silent)
         if os.path.exists(pf) and (not seeds or sid in seeds):
             items.append((sid, pf))
     out = {}
     mp = "/verif/seeded/matrix.json"
     if os.path.exists(mp):
-        out = json.load(open(mp))
+        out = {k: v for k, v in json.load(open(mp)).items() if os.path.exists("/verif/seeded/%s/confirm.json" % k)}
     if WT:
         if not os.path.isdir(WT):
             sh("git -C /repo worktree add -q --detach %s HEAD" % WT)
